@@ -2,11 +2,12 @@
 // and prints the projected observations (JSON).
 //
 // Three drivers per run:
-//   direct: the unexported workingState through the verif hook (CheckAddTx/Buffered/Rebase),
-//           with a snapshot of its raw fields after every request;
-//   api:    the public Buffer (New/Initialize/AddTx/Buffered/Rebase through the kernel
-//           goroutine), sequential caller, Buffered(nil) read after every request;
-//   conc:   the public Buffer with several goroutines issuing requests concurrently.
+//
+//	direct: the unexported workingState through the verif hook (CheckAddTx/Buffered/Rebase),
+//	        with a snapshot of its raw fields after every request;
+//	api:    the public Buffer (New/Initialize/AddTx/Buffered/Rebase through the kernel
+//	        goroutine), sequential caller, Buffered(nil) read after every request;
+//	conc:   the public Buffer with several goroutines issuing requests concurrently.
 //
 // The state/transaction semantics (applyTx, deleterFor) is the fixture that is defined
 // identically in coq/Model/TxBufInst.v.
@@ -22,6 +23,7 @@ import (
 	"os"
 	"runtime"
 	"sync"
+	"time"
 
 	"github.com/gordian-engine/gordian/gdriver/gtxbuf"
 )
@@ -157,6 +159,9 @@ type CaseIn struct {
 	Base    []uint64 `json:"base"`
 	Ops     []OpIn   `json:"ops"`
 	Threads [][]OpIn `json:"threads,omitempty"`
+	// Slow (concurrent cases): microseconds the deleter's predicate takes per transaction, so that the in-place
+	// compaction of a rebase lasts long enough for a request that is not serialised with it to observe it
+	Slow uint64 `json:"slow,omitempty"`
 }
 
 type Input struct {
@@ -326,7 +331,18 @@ func runAPI(c CaseIn) (co CaseOut) {
 		}
 	}()
 	ctx, cancel := context.WithCancel(context.Background())
-	buf := gtxbuf.New[State, Tx](ctx, quiet, applyFor(c.Cap), deleterFor(c.Mode))
+	del := deleterFor(c.Mode)
+	if c.Slow > 0 {
+		fast := del
+		del = func(ctx context.Context, reject []Tx) func(Tx) bool {
+			p := fast(ctx, reject)
+			return func(t Tx) bool {
+				time.Sleep(time.Duration(c.Slow) * time.Microsecond)
+				return p(t)
+			}
+		}
+	}
+	buf := gtxbuf.New[State, Tx](ctx, quiet, applyFor(c.Cap), del)
 	defer buf.Wait()
 	defer cancel()
 	if !buf.Initialize(ctx, State(cp(c.Base))) {
